@@ -240,3 +240,33 @@ Theorem C09_noise_short_msg_panics_before_fix :
 Proof. exact (noise_legacy_short_panics). Qed.
 Print Assumptions C09_noise_short_msg_panics_before_fix.
 
+
+(* ====================================================================================================
+   The argument vector as the operating system hands it over: byte strings (Unix OsString), converted by
+   main.rs::convert_args (OsStr::to_str = strict UTF-8 decoding, Model/Utf8.v) before the argument parser runs
+   (Model/CliArgs.v::cli_parse_bytes).  EVERY vector of byte strings gives a value: never a panic, never out of fuel.
+   ==================================================================================================== *)
+From Kestrel.Model Require KeyringText CliParse Utf8 CliArgs.
+From Kestrel.Proofs Require CliArgsFacts.
+
+Theorem C09_argv_bytes_never_panic :
+  forall argv : list bytes, exists r : CliArgs.command_or_argerr, CliArgs.cli_parse_bytes argv = Ok r.
+Proof. exact (CliArgsFacts.cli_parse_bytes_no_panic). Qed.
+Print Assumptions C09_argv_bytes_never_panic.
+
+(* an argument that is not valid UTF-8 is an ORDINARY error ("Arguments must be valid UTF-8", exit 1), reported for
+   the first such argument whatever follows it *)
+Theorem C09_argv_bytes_invalid_is_error :
+  forall (pre : list bytes) (a : bytes) (post : list bytes),
+  Forall (fun x => Utf8.utf8_decode x <> None) pre -> Utf8.utf8_decode a = None ->
+  CliArgs.cli_parse_bytes (pre ++ a :: post) = Ok (CliArgs.ArgErr (length pre)).
+Proof. exact (CliArgsFacts.cli_parse_bytes_invalid). Qed.
+Print Assumptions C09_argv_bytes_invalid_is_error.
+
+(* all arguments valid: the command the parser computes on the decoded vector *)
+Theorem C09_argv_bytes_valid :
+  forall (argv : list bytes) (ts : list KeyringText.text),
+  Forall2 (fun a t => Utf8.utf8_decode a = Some t) argv ts ->
+  exists c : CliParse.command, CliParse.cli_parse ts = Ok c /\ CliArgs.cli_parse_bytes argv = Ok (CliArgs.ArgCmd c).
+Proof. exact (CliArgsFacts.cli_parse_bytes_valid_cmd). Qed.
+Print Assumptions C09_argv_bytes_valid.
